@@ -350,4 +350,20 @@ theorem act_loc (s : State) (t : Tid) (c : Choice) (p : Pc) :
     | (simp_all [Loc, retEv, Eff.shared]; done)
     | (simp_all [Loc, retEv, Eff.shared]; (first | exact lookupBg_mem _ _ _ (by assumption) | (intro h; simp_all)))
 
+theorem afterAcq_ne (k : AcqK) : afterAcq k ≠ .acq4 k := by cases k <;> simp [afterAcq]
+theorem afterRel_ne (k : RelK) : afterRel k ≠ .rel1 k := by
+  cases k with
+  | rn k => cases k <;> simp [afterRel]
+  | _ => simp [afterRel]
+
+/-- inside a critical section every line that does not fail moves on to another line -/
+theorem act_progress (s : State) (t : Tid) (c : Choice) (p : Pc) :
+    0 < p.crit → (act .fixed s t c p).eff ≠ .crash → canAcquire s t = true →
+      (act .fixed s t c p).pc ≠ p := by
+  table_cases p <;>
+    first
+    | (intros; exact afterAcq_ne _)
+    | (intros; exact afterRel_ne _)
+    | simp_all [Pc.crit, retEv]
+
 end Bardolph.JC
